@@ -824,8 +824,9 @@ func checkBBC(p *core.Program, r *core.Report) {
 		for _, in := range blk.Instrs {
 			if ia, ok := in.(*ssa.IndexAddr); ok {
 				for _, c := range core.DominatingConds(ia.Block()) {
-					if b, ok := c.V.(*ssa.BinOp); ok && b.Op == token.LSS && !c.True {
-						if k, ok := core.ConstInt(b.Y); ok && k >= 2 {
+					// len >= 2 (or more), in any spelling
+					if _, small, strict, isOrd := core.CondGreater(c); isOrd {
+						if k, ok := core.ConstInt(small); ok && ((!strict && k >= 2) || (strict && k >= 1)) {
 							okLen = true
 						}
 					}
@@ -940,9 +941,18 @@ func checkBBC(p *core.Program, r *core.Report) {
 		case *ssa.Store:
 			if pathEndsWith(x.Addr, "finished") && core.IsBoolConst(x.Val, true) {
 				for _, c := range core.DominatingConds(x.Block()) {
-					if b, ok := c.V.(*ssa.BinOp); ok && b.Op == token.LEQ && c.True && pathEndsWith(b.Y, "mtu") {
-						okEnd = okEnd && true
-						okCut = true
+					// len(payload) <= mtu, in any of its spellings
+					if b, ok := c.V.(*ssa.BinOp); ok {
+						fits := false
+						switch {
+						case pathEndsWith(b.Y, "mtu"):
+							fits = (b.Op == token.LEQ && c.True) || (b.Op == token.GTR && !c.True)
+						case pathEndsWith(b.X, "mtu"):
+							fits = (b.Op == token.GEQ && c.True) || (b.Op == token.LSS && !c.True)
+						}
+						if fits {
+							okCut = true
+						}
 					}
 				}
 			}
